@@ -7,6 +7,8 @@ import (
 	"strings"
 
 	sdk "github.com/cosmos/cosmos-sdk/types"
+	reporterkeeper "github.com/tellor-io/layer/x/reporter/keeper"
+	reportertypes "github.com/tellor-io/layer/x/reporter/types"
 )
 
 // OracleC19 — privileged changes need governance; messages touch only the signer's assets.
@@ -196,6 +198,61 @@ func (o *OracleC19) AfterBlock(c *Chain, b *BlockCtx) []*Violation {
 				full := uint64(n) >= pCap
 				if !belowMin || !full {
 					out = append(out, o.v(b.H, "third-party", "remove_selector", "selection-removed-outside-the-exception", "tx %d: %s removed the reporter selection of %s (bonded stake %s, the reporter's minimum is %s; the reporter had %d selectors, cap %d): only a selector below the minimum of a full reporter may be removed by others", i, signer, sel, stake, min, n, pCap))
+				}
+			}
+		}
+	}
+
+	// ---- removal probe on a counterfactual branch: governance lowers the selector cap to 0 (Params.Validate accepts it, so
+	// the state is reachable), which makes every reporter "full"; then an unrelated address asks the real message server to
+	// remove every selection in turn (a branch per call). Whatever the history, the removal may only go through for a selector
+	// whose stake with bonded validators — recomputed here from the staking module's state — is below the reporter's minimum.
+	{
+		ms := reporterkeeper.NewMsgServerImpl(b.Ref.App.ReporterKeeper)
+		cf, _ := v.ctx.CacheContext()
+		lowered := rp
+		lowered.MaxSelectors = 0
+		if err := b.Ref.App.ReporterKeeper.Params.Set(cf, lowered); err == nil {
+			stranger := sdk.AccAddress([]byte("c19-removal-probe---"))
+			for _, s := range v.Selectors() {
+				rep := string(s.Reporter)
+				min := curMin[rep]
+				if min == nil {
+					continue
+				}
+				stake := new(big.Int)
+				nDel, nUnbonded := 0, 0
+				if sn := curStake[rep]; sn != nil {
+					for _, t := range sn.terms {
+						if t.Selector == string(s.Addr) {
+							stake.Add(stake, t.Tokens)
+						}
+					}
+				}
+				for _, d := range v.Delegations(s.Addr) {
+					nDel++
+					va, _ := sdk.ValAddressFromBech32(d.ValidatorAddress)
+					if val, ok := v.Validator(va); ok && !val.IsBonded() {
+						nUnbonded++
+					}
+				}
+				branch, _ := cf.CacheContext()
+				err := probeMsg(branch, func(x sdk.Context) error {
+					_, e := ms.RemoveSelector(x, &reportertypes.MsgRemoveSelector{AnyAddress: stranger.String(), SelectorAddress: s.Addr.String()})
+					return e
+				})
+				o.count("removal_probe_calls")
+				if nDel > 1 && nUnbonded > 0 {
+					o.count("removal_probe_selector_with_several_delegations_one_not_bonded")
+				}
+				if err == nil {
+					o.count("removal_probe_removed")
+					if stake.Cmp(min) >= 0 {
+						out = append(out, o.v(b.H, "third-party", "remove_selector", "selection-removed-outside-the-exception:removal-probe", "with the selector cap lowered to 0 an unrelated address can remove the reporter selection of %s (stake with bonded validators %s in %d delegations, %d of them with validators that are not bonded; the reporter's minimum is %s): only a selector below the minimum may be removed by others", s.Addr, stake, nDel, nUnbonded, min))
+						break
+					}
+				} else if stake.Cmp(min) < 0 {
+					o.count("removal_probe_refused_below_minimum")
 				}
 			}
 		}
